@@ -116,6 +116,19 @@ Proof. exact (C06.en_d_load_secondary_implicit_bounds E K n Kp HE HK Hn HKp dl d
 Theorem en_strain_is_ramberg_osgood s L ds dl :
   en_strain E K n Kp s L = ro_strain E K n s /\ en_strain_secondary_branch E K n Kp ds dl = 2 * ro_strain E K n (ds / 2).
 Proof. exact (C06.en_strain_is_ramberg_osgood E K n Kp HE HK Hn HKp s L ds dl). Qed.
+
+(* arguments of either sign: the reported strain is odd under joint negation of (stress, load), and at a root of
+   either sign the pair (stress, reported strain) lies on the Neuber hyperbola (eq. 2.5-45 / 2.5-46) *)
+Theorem en_strain_odd s L ds dl :
+  en_strain E K n Kp (- s) (- L) = - en_strain E K n Kp s L /\
+  en_strain_secondary_branch E K n Kp (- ds) (- dl) = - en_strain_secondary_branch E K n Kp ds dl.
+Proof. exact (C06.en_strain_odd E K n Kp HE HK Hn HKp s L ds dl). Qed.
+
+Theorem en_strain_on_hyperbola s L ds dl :
+  (s <> 0 -> en_stress_implicit E K n Kp s L = 0 -> s * en_strain E K n Kp s L = L * Kp * en_e_star E K n Kp L) /\
+  (ds <> 0 -> en_stress_secondary_implicit E K n Kp ds dl = 0 ->
+   ds * en_strain_secondary_branch E K n Kp ds dl = dl * Kp * en_delta_e_star E K n Kp dl).
+Proof. exact (C06.en_strain_on_hyperbola E K n Kp HE HK Hn HKp s L ds dl). Qed.
 End ExtendedNeuber.
 
 Section SeegerBeste.
@@ -165,6 +178,11 @@ Proof. exact (C06.sb_load_implicit_is_stress_implicit E K n Kp HE HK Hn HKp L s)
 Theorem sb_strain_is_ramberg_osgood s L ds dl :
   sb_strain E K n Kp s L = ro_strain E K n s /\ sb_strain_secondary_branch E K n Kp ds dl = 2 * ro_strain E K n (ds / 2).
 Proof. exact (C06.sb_strain_is_ramberg_osgood E K n Kp HE HK Hn HKp s L ds dl). Qed.
+
+Theorem sb_strain_odd s L ds dl :
+  sb_strain E K n Kp (- s) (- L) = - sb_strain E K n Kp s L /\
+  sb_strain_secondary_branch E K n Kp (- ds) (- dl) = - sb_strain_secondary_branch E K n Kp ds dl.
+Proof. exact (C06.sb_strain_odd E K n Kp HE HK Hn HKp s L ds dl). Qed.
 End SeegerBeste.
 
 Theorem c06_guards_satisfiable :
@@ -195,6 +213,8 @@ Print Assumptions en_d_load_implicit_bounds.
 Print Assumptions en_load_secondary_derivative.
 Print Assumptions en_d_load_secondary_implicit_bounds.
 Print Assumptions en_strain_is_ramberg_osgood.
+Print Assumptions en_strain_odd.
+Print Assumptions en_strain_on_hyperbola.
 Print Assumptions sb_u_in_bounds.
 Print Assumptions sb_equation_in_bounds.
 Print Assumptions sb_equation_joint_negation.
@@ -204,4 +224,5 @@ Print Assumptions sb_root_lower_bound_partial.
 Print Assumptions sb_root_iff_equation.
 Print Assumptions sb_load_implicit_is_stress_implicit.
 Print Assumptions sb_strain_is_ramberg_osgood.
+Print Assumptions sb_strain_odd.
 Print Assumptions c06_guards_satisfiable.
